@@ -778,7 +778,7 @@ fn run(ctx: &Ctx) {
     ctx.run_cases("linereader-scanner", n, strat, check_scan);
 
     let n = ctx.share(ctx.tier.pick(1_200_000, 36_000_000));
-    let strat = (input_strategy(8, true), feed_strategy()).prop_map(|(input, feed)| BoundsCase { input, feed });
+    let strat = (input_strategy(8, true), crate::source::parser_feed_strategy()).prop_map(|(input, feed)| BoundsCase { input, feed });
     ctx.run_cases("bounds", n, strat, check_bounds);
     let n = ctx.share(ctx.tier.pick(1_000_000, 30_000_000));
     let strat = spec_strategy()
@@ -791,7 +791,7 @@ fn run(ctx: &Ctx) {
                 0..CORRUPTIONS.len(),
                 any::<u16>(),
                 any::<u16>(),
-                feed_strategy(),
+                crate::source::parser_feed_strategy(),
             )
         })
         .prop_map(|(spec, doc, choices, fancy, corruption, pick, arg, feed)| {
